@@ -193,6 +193,22 @@ def run_case(ctx, g, rng):
     so = call(res.get_subconverter, arg)
     call(res.get_subconverter, list(P))  # and once more on the same parent
     probe.note_key(key + f":sub-{style}", bool(kinds) or style != "canon")
+    if so[0] == "ret" and g % 3 == 0:
+        # the restriction was handed out; afterwards the parent registers a new record, and the subconverter another:
+        # neither may show in the other ("exactly those records having a prefix in P", whenever it is looked at)
+        sub = so[1]
+        call(res.add_prefix, "zzlate", "http://zz.late/")
+        call(sub.add_prefix, "zzsubown", "http://zz.subown/")
+        probe.evaluated("sub-answers")
+        for conv_, p_, u_, who in ((sub, "zzlate", "http://zz.late/", "subconverter-knows-a-record-registered-on-the-parent-later"),
+                                   (res, "zzsubown", "http://zz.subown/", "parent-knows-a-record-registered-on-the-subconverter-later")):
+            a, b = call(conv_.expand, p_ + ":1"), call(conv_.compress, u_ + "1")  # (compress: judged by the always-on monitor)
+            snap_ = spec.snapshot(conv_)
+            if a != ("ret", None) or p_ in {x for r in snap_ for x in spec.all_p(r)} or u_ in {x for r in snap_ for x in spec.all_u(r)}:
+                violation(["C09"], "sub-answers", who, parent=[spec.rec_dict(r) for r in rrecs], prefixes=sorted(P), expand=a, compress=b,
+                          same_object=sub is res)
+        rrecs = [r for r in spec.snapshot(res)]
+        P = set(P)
     if so[0] == "ret":
         sub = so[1]
         psp = spec.SpecConverter(rrecs, ":")
